@@ -407,6 +407,21 @@ Definition eqb_oimgs (a b : option (list img)) : bool :=
 Definition eqb_oimg (a b : option img) : bool :=
   match a, b with Some x, Some y => eqb_img x y | None, None => true | _, _ => false end.
 
+(* lookup of a path (list of components) in a mounted file system *)
+Definition fs_find (fs : list (list bytes * file)) (path : list bytes) : option file :=
+  match find (fun e => eqb_img (fst e) path) fs with Some e => Some (snd e) | None => None end.
+
+Definition spec_path_model (path topdir : option bytes) (env : envt) (run2d : bytes) (plates : list Z) : option (list img) :=
+  match resolve_loc path topdir env run2d with
+  | None => None
+  | Some l => Some (map (plate_dir l run2d) plates)
+  end.
+Definition opened_model (path topdir : option bytes) (env : envt) (run2d : bytes) (reqs : list req) : option (list img) :=
+  match resolve_loc path topdir env run2d with
+  | None => None
+  | Some l => Some (opened_spplate l run2d reqs)
+  end.
+
 Inductive case :=
   (* one readspec call: conventions as passed, the request list as the harness understands it
      (None = the harness expects an error from the calling convention), observed output (None = exception) *)
@@ -415,6 +430,10 @@ Inductive case :=
   (* readspec(plate, mjd, fiber=None): all fibres; platelist rows and the codes of the call's RUN2D / RUN1D *)
 | CReadAll (sv : survey) (pl : list plrow) (r2 r1 : Z) (plate : arg) (mjd : option arg)
            (reqs : option (list req)) (expect : option (list img))
+  (* spec_path(plates, path, topdir, run2d) under an environment: directories as lists of path components *)
+| CSpecPath (path topdir : option bytes) (env : envt) (run2d : bytes) (plates : list Z) (expect : option (list img))
+  (* the spPlate files one readspec call opened (observed by wrapping fits.open), as lists of path components *)
+| CFiles (path topdir : option bytes) (env : envt) (run2d : bytes) (reqs : list req) (expect : option (list img))
 | CAppend (a b : img) (pixshift : Z) (expect : option img).
 
 (* verdict: 0 = model = impl and spec satisfied; +1 model differs from impl; +2 impl contradicts the spec *)
@@ -442,6 +461,10 @@ Definition run_case (c : case) : Z :=
                      end
         end in
       (if eqb_oimgs m expect then 0 else 1) + (if spec_bad then 2 else 0)
+  | CSpecPath path topdir env run2d plates expect =>
+      if eqb_oimgs (spec_path_model path topdir env run2d plates) expect then 0 else 1
+  | CFiles path topdir env run2d reqs expect =>
+      if eqb_oimgs (opened_model path topdir env run2d reqs) expect then 0 else 1
   | CAppend a b s expect =>
       (if eqb_oimg (Some (spec_append a b s)) expect then 0 else 1) +
       (if eqb_oimg (Some (spec_append_S a b s)) expect then 0 else 2)
